@@ -96,9 +96,37 @@ def fam_c01(tier, seed):
     return sks
 
 
+def interleaved_family(tier):
+    """non-canonical line orders: a day's buys and sells of one security interleaved (so that the tool keeps several
+    unmerged lots / sales for that day), optionally after an earlier buy and sale whose 30-day match reaches into that day.
+    The conservation laws (C02, C03) do not depend on line order."""
+    import itertools
+    out = []
+    day_kinds = ["BSB", "SBS", "BSBS", "BSBSB", "BBSB", "BSBB", "SBSB"]
+    if tier == "thorough":
+        day_kinds += ["BSSB", "SBBS", "BSBBS", "SBSBS"]
+    for pre in ([], [["B", "A", 0]], [["B", "A", 0], ["S", "A", 1]], [["B", "A", 0], ["S", "A", 0], ["S", "A", 1]]):
+        for dk in day_kinds:
+            for d in ((30, 31) if pre else (0,)):
+                lines = [list(x) for x in pre] + [[k, "A", d] for k in dk]
+                if len(lines) <= (6 if tier == "quick" else 7):
+                    out.append((lines, BASES[0]))
+                    # same day lines separated by another security's line instead
+    for pre in ([["B", "A", 0], ["S", "A", 1]],):
+        for dk in ("BB", "BBB", "BSB"):
+            lines = [list(x) for x in pre]
+            for i, k in enumerate(dk):
+                lines.append([k, "A", 30])
+                if i < len(dk) - 1:
+                    lines.append(["B", "B", 30])
+            out.append((lines, BASES[0]))
+    return out
+
+
 def fam_c02(tier, seed):
     items = matching_family(tier, seed, events=("X", "U", "C", "M", "D"))
     sks = _number("m", items)
+    sks += _number("i", interleaved_family(tier))
     rep = report_level([it for it in items if it[1] == BASES[0]], 4 if tier == "quick" else 5, quick=tier == "quick")
     sks += _number("r", rep, level="report")
     return sks
@@ -339,3 +367,70 @@ SPECS.update({
 })
 for _p in ("C06", "C09", "C10", "C11", "C12"):
     SPECS[_p].setdefault("outcome_free", False)
+
+
+# ---------------------------------------------------------------------------------------------- report level
+def fam_c04(tier, seed):
+    items = []
+    n = 3 if tier == "quick" else 4
+    # one security; base 2024-03-07 puts offsets 30/31 on 6/7 April (next tax year), 0/1 before it
+    for base in (BASES[0], BASES[2]):
+        for l in sk.bs_family(2, n, SHORT, need_sell=True):
+            if len({x[2] for x in l if x[0] == "S"}) <= 2:
+                items.append((l, base))
+    # dividends
+    b2 = list(sk.bs_family(2, 2 if tier == "quick" else 3, [0, 30], need_sell=True))
+    for l in sk.with_events(b2, ("D",), [0, 1, 30, 31], max_events=2):
+        items.append((l, BASES[2]))
+    # two securities sold on one day
+    for l in sk.bs_family(4, 4, [0, 30], tickers=("A", "B"), need_sell=True):
+        if sum(1 for x in l if x[0] == "S") == 2 and [x[0] for x in l[:2]] == ["B", "B"] and len({x[1] for x in l if x[0] == "B"}) == 2:
+            items.append((l, BASES[2]))
+    items = _dedup(items)
+    sks = []
+    i = 0
+    for l, b in items:
+        sks.append(mk(i, "a", l, base=b, wit=WIT)); i += 1
+    for l, b in items:
+        if b == BASES[2] and len(l) <= 3:
+            for y in (2023, 2024):
+                sks.append(mk(i, "y", l, base=b, wit=WIT, year=y)); i += 1
+            sks.append(mk(i, "x", l, base=b, wit=WIT, variant="missing")); i += 1
+    return sks
+
+
+def fam_c07(tier, seed):
+    bases = ["2023-04-05", "2024-04-05", "1900-04-05", "1901-04-05", "2100-04-05", "2101-04-05", "2024-12-31", "2020-02-29"]
+    shapes = [
+        [["B", "A", -1], ["S", "A", 0]],
+        [["B", "A", -1], ["S", "A", 1]],
+        [["B", "A", -1], ["S", "A", 0], ["S", "A", 1]],
+        [["B", "A", -1], ["S", "A", 0], ["B", "A", 1], ["S", "A", 1]],
+        [["B", "A", -1], ["D", "A", 0], ["S", "A", 0], ["D", "A", 1], ["S", "A", 1]],
+        [["B", "A", -400], ["S", "A", -365], ["S", "A", 0], ["S", "A", 1]],
+        [["B", "A", -1], ["B", "B", -1], ["S", "B", 0], ["S", "A", 1]],
+    ]
+    if tier == "thorough":
+        shapes += [[["B", "A", -40], ["S", "A", -29], ["B", "A", 0], ["S", "A", 1], ["B", "A", 2]],
+                   [["B", "A", -1], ["S", "A", 0], ["S", "A", 1], ["S", "A", 366], ["S", "A", 367]]]
+    sks = []
+    i = 0
+    for b in bases:
+        for sh in shapes:
+            sks.append(mk(i, "b", sh, base=b, wit=3)); i += 1
+    return sks
+
+
+SPECS.update({
+    "C04": dict(id="C04", families=fam_c04, entry_points=REPORT_ENTRY + ["cgt_core::models::TaxYearSummary::{disposal_count,gross_proceeds,taxable_gain}", "cgt_core::models::Disposal::{net_gain_or_loss,total_allowable_cost}"],
+                bounds=bounds_rel((
+                    "every B/S ledger of one security with 2..3 lines and <= 2 disposal days on {0,1,30,31} from 2024-01-10 and 2024-03-07 (offsets 30/31 = 6/7 April: two tax years), 2 trade lines plus 1..2 DIVIDEND lines, two securities sold on one day; all-years report, year filters 2023 and 2024, and an exemption table lacking a year with disposals; every quantity, price, fee, dividend, tax and each year's exempt amount symbolic",
+                    "as quick with 2..4 lines")),
+                assumptions=COMMON_ASSUME + ["the round_dp(10) normalisation of proceeds is over-approximated by a value within 5e-11 (identities asserted to that tolerance)", "Config is built directly (public field) with a symbolic exempt amount per year"],
+                outside=OUTSIDE + ["Config::load_with_overrides file I/O", "plain/PDF/WASM re-computations (plain: C17)"]),
+    "C07": dict(id="C07", families=fam_c07, harness_prop="C07", entry_points=REPORT_ENTRY + ["cgt_core::models::TaxPeriod::{from_date,new,start_year,end_date}"],
+                bounds=bounds_rel((
+                    "7 ledger shapes with disposals on 5 and 6 April (and a year earlier/later) at 8 calendar positions (2023, 2024 leap, 1900, 1901, 2100, 2101, 31 Dec, 29 Feb), all numeric fields and exempt amounts symbolic; every year filter from the year before the first line to the year after the last; all dates for the date kernels are decided separately by KANI and SRCX (same check)",
+                    "as quick with 9 shapes")),
+                assumptions=COMMON_ASSUME, outside=OUTSIDE + ["CLI --year argument parsing"]),
+})
